@@ -266,6 +266,11 @@ func (m *Model) Apply(op Op) Expect {
 	}
 	p := Join(base, rel)
 	root := m.Root
+	if m.Opt.StrictPre && len(base) > 0 {
+		if bn := root.Lookup(base); bn == nil || !bn.Dir {
+			return skip("receiver's root is no longer a directory")
+		}
+	}
 	switch op.Op {
 	case "WriteFile", "Writer":
 		if len(rel) == 0 {
@@ -346,10 +351,10 @@ func (m *Model) Apply(op Op) Expect {
 			}
 			return Expect{Err: Yes}
 		}
-		if op.Op == "CopyFile" && src.Dir {
-			return Expect{Err: Yes}
-		}
-		if op.Op == "CopyDirectory" && !src.Dir {
+		if (op.Op == "CopyFile" && src.Dir) || (op.Op == "CopyDirectory" && !src.Dir) {
+			if m.Opt.StrictPre {
+				return skip("copy source has the wrong kind")
+			}
 			return Expect{Err: Yes}
 		}
 		if root.Lookup(d) != nil {
